@@ -47,7 +47,7 @@ def relation_cases(tier, seed):
                     full = rnd.sample(full, len(full) // 6)
                     part = rnd.sample(part, len(part) // 40)
                 else:
-                    part = rnd.sample(part, len(part) // 7)
+                    part = rnd.sample(part, len(part) // 10)
             cases += full + part
     for i, c in enumerate(cases):
         c["id"] = i + 1
@@ -261,9 +261,9 @@ def gen_box(rnd, pid):
     return dict(id=pid, fam="box", objs=[o], cont=cont, field=[], reqs=[])
 
 
-def gen_vis(rnd, pid):
+def gen_vis(rnd, pid, tier="quick"):
     ex, ey = rnd.choice([-1, 0, 1]), rnd.choice([0, 1])
-    vd = rnd.choice([Q, 2 * Q, 3 * Q, 2])
+    vd = rnd.choice([Q, 2 * Q, 3 * Q, 2] + ([1] if tier != "quick" else []))
     ego = _obj(fixed=True, pos=[ex * Q, ey * Q, 0], vd=vd, sizes=[[Q, Q, Q]])
     R = rnd.choice([5, 6])
     base = [pbox(ex - R, ey - R, ex + R, ey + rnd.choice([2, R]))]
@@ -383,7 +383,7 @@ def _req(q, form, ops, cs, kind="require"):
     return dict(q=q, form=form, ops=ops, cs=cs, kind=kind)
 
 
-def core_programs():
+def core_programs(tier="quick"):
     """Fixed minimal programs, always run: for each pruning technique one program that must hold
     and the smallest variations that reach each named as-implemented deviation."""
     P = []
@@ -426,12 +426,20 @@ def core_programs():
     ego = _obj(fixed=True, pos=[0, 0, 0], vd=2 * Q)
     P.append(dict(id=0, fam="vis", cont=[], field=[], reqs=[],
                   objs=[ego, _obj(base=[pbox(-5, -5, 5, 5)], sizes=[[2 * Q, 2 * Q, 2 * Q]], vis="requireVisible")]))
+    # a view region smaller than one unit (the dilation passes are counted with the relative pitch)
+    near = _obj(fixed=True, pos=[0, 0, 0], vd=1)
+    # (no lattice probe falls between the under-dilated region and the true bound, so this one is
+    # decided by the differential run: a small base keeps the acceptance rate high, 40 scenes)
+    # thorough only: the real visibility check costs seconds per attempt when the object surrounds the eye
+    if tier != "quick":
+        P.append(dict(id=0, fam="vis", cont=[], field=[], reqs=[], nscenes=40,
+                      objs=[near, _obj(base=[pbox(-3, -3, 3, 3)], sizes=[[4 * Q, 4 * Q, 4 * Q]], vis="requireVisible")]))
     return P
 
 
 def lattice_programs(tier, seed):
     rnd = random.Random(seed * 7919 + 5)
-    n = dict(cont=8, box=2, vis=2, rh_clean=8, rh_trig=6) if tier == "quick" else \
+    n = dict(cont=6, box=1, vis=2, rh_clean=6, rh_trig=6) if tier == "quick" else \
         dict(cont=70, box=6, vis=12, rh_clean=70, rh_trig=45)
     progs = []
 
@@ -439,7 +447,7 @@ def lattice_programs(tier, seed):
         p["id"] = len(progs) + 1
         progs.append(p)
 
-    for p in core_programs():
+    for p in core_programs(tier):
         add(p)
 
     for _ in range(n["cont"]):
@@ -447,7 +455,7 @@ def lattice_programs(tier, seed):
     for _ in range(n["box"]):
         add(gen_box(rnd, len(progs) + 1))
     for _ in range(n["vis"]):
-        add(gen_vis(rnd, len(progs) + 1))
+        add(gen_vis(rnd, len(progs) + 1, tier))
     for _ in range(n["rh_clean"]):
         add(gen_rh(rnd, len(progs) + 1, None))
     for i in range(n["rh_trig"]):
